@@ -87,6 +87,14 @@ theorem scatterVec_render (e : Nat → Nat → Option α) (hs : ∀ x y, e x y =
     scatterVec cp.length bigN pidx (renderVec e cp) = renderVec e (scatterCp bigN pidx cp) :=
   Rsa.Rdm.scatterVec_render e hs cp bigN pidx hlen
 
+/-- the buffer length `from_partials` allocates (`vector_len`, regenerated from the source) is the
+    number of pairs, and every scattered row has exactly that length: the write never fails -/
+theorem fpVectorLen_triangular (n : Nat) : fpVectorLen n = n * (n - 1) / 2 := rfl
+
+theorem scatterVec_length (n bigN : Nat) (pidx : List Nat) (v : List (Option α)) :
+    (scatterVec n bigN pidx v).length = fpVectorLen bigN := by
+  simp [scatterVec, matToVec, Rsa.pairs_length, triLen, fpVectorLen]
+
 /-! ## 3. exactly the requested RDMs / conditions, with the requested multiplicity -/
 
 /-- `subset` / `subset_pattern` select position `i` iff its value is requested, once -/
@@ -206,10 +214,11 @@ def reachable_rdesc_full (α : Type) [Zero α] : Prop :=
     ∀ o0 col0, s0[r.src.1]? = some o0 → o0.rdesc.get key = some col0 → col[q]? = col0[r.src.2]?
 
 /-- proved part: for the *tracked* keys `go.rk` — every rdm descriptor of the initial object,
-    carried through every operation; after `append` the keys tracked in both objects; the
-    results of `concat` / `from_partials` restart with none (their merged descriptors are
-    covered by the correspondence and the oracle only) — the descriptor is present and row `q`
-    holds exactly the value initial RDM `r.src` had. -/
+    carried through every operation; after `append`, `concat` and `from_partials` the keys
+    tracked in *all* the objects involved (`tracked_keys_merge`) — the descriptor is present and
+    row `q` holds exactly the value initial RDM `r.src` had.  Still outside: object-level
+    descriptors demoted to rdm descriptors by a merge, and keys that only some of the merged /
+    appended objects have (filled with `None`, resp. dropped, as coded). -/
 theorem reachable_rdesc_partial (s0 : Store α) (hwf : ∀ o ∈ s0, o.WF) (cm : Bool) (ops : List Op)
     (k : Nat) (o : Obj α) (go : GObj) (hk : (run cm s0 ops)[k]? = some o)
     (hg : (grun cm s0 (ginit s0) ops)[k]? = some go)
@@ -226,6 +235,22 @@ theorem reachable_rdesc_partial (s0 : Store α) (hwf : ∀ o ∈ s0, o.WF) (cm :
 theorem tracked_keys_kept (g : GObj) (sel : List Nat) :
     (g.pickRows sel).rk = g.rk ∧ (g.pickConds sel).rk = g.rk := ⟨rfl, rfl⟩
 
+/-- `concat` / `from_partials` track exactly the keys tracked in every argument; `append` those
+    tracked in receiver and argument -/
+theorem tracked_keys_merge (gfirst : GObj) (aligned gs : List GObj) (labs : List (List Lbl))
+    (all : List Lbl) (go gr : GObj) :
+    (gconcat gfirst aligned).rk = commonKeys (gfirst :: aligned) ∧
+    (gfromPartials gs labs all).rk = commonKeys gs ∧
+    (gappend go gr).rk = go.rk.filter (fun k => gr.rk.contains k) := ⟨rfl, rfl, rfl⟩
+
+/-- a key is common iff it is tracked in every object -/
+theorem mem_commonKeys_iff (g : GObj) (gs : List GObj) (k : String) :
+    k ∈ commonKeys (g :: gs) ↔ k ∈ g.rk ∧ ∀ g' ∈ gs, k ∈ g'.rk := by
+  simp [commonKeys]
+
+/-- `_merged_rdm_descriptors` never fails: a descriptor an object lacks is filled with `None` -/
+theorem mergedRDesc_total (objs : List (Obj α)) : (mergedRDesc objs).isSome = true := rfl
+
 /-! ## 5. in-place operations change only their receiver; the others change nothing -/
 
 /-- the receiver of an in-place operation (`reorder`, `sort_by`, `append`) -/
@@ -237,7 +262,7 @@ def receiver : Op → Option Nat
   | _ => none
 
 def isConcat : Op → Bool
-  | .concat _ => true
+  | .concat _ _ => true
   | _ => false
 
 /-- every object other than the receiver of an in-place operation is left exactly as it was,
